@@ -1081,7 +1081,7 @@ fn run(rep: &Report) {
          (3c) chains of {}..258 MIDDLE levels, all-left or all-right, level-0 sibling EMPTY | honest other half truncated{}, ending in every tree with <= {} MIDDLE nodes over EMPTY | TERMINAL x (x of {{Z,Z1,Z2,F1,F}} on the chain's side) | TRUNCATED h (fork hashes and root of the set), for all 31 non-empty subsets of {{Z,Z1,Z2,F1,F}} x 8 items. \
          Every candidate of (3) goes through validate_merkle_proof with the reference root of the set. distinct = subsets (1), (universe,subset,item) triples (2), and every different candidate proof that passed the root check (3).",
         if quick { 3 } else { 4 },
-        if quick { "{Z,Z1,Z2,F1,F} (32 sets)" } else { "U (all 4096 sets)" },
+        if quick { "{Z,Z1,Z2,F1,F} (32 sets)" } else { "{Z,Z1,Z2,P1,P2,P4,P4b,P6,F1,F} (1024 sets)" },
         if quick { "" } else { ", and over W every rewrite of every rewrite (validated against the proof's own item)" },
         if quick { 252 } else { 250 },
         if quick { "" } else { " | honest other half fully expanded" },
@@ -1113,8 +1113,8 @@ fn run(rep: &Report) {
 
     // (2) + (3b)
     let name_mask = |names: &[&str]| -> u32 { names.iter().map(|n| 1u32 << un.iter().position(|x| x.0 == *n).unwrap()).sum() };
-    // rewrites of the proofs over U: quick = sets within the sub-universe holding the deepest pairs, thorough = all sets
-    let sub_mask = if quick { name_mask(&["Z", "Z1", "Z2", "F1", "F"]) } else { (1u32 << u.len()) - 1 };
+    // rewrites of the proofs over U: quick = sets within the sub-universe holding the deepest pairs, thorough = the 1024 sets without the lone leaves P3, P5
+    let sub_mask = if quick { name_mask(&["Z", "Z1", "Z2", "F1", "F"]) } else { name_mask(&["Z", "Z1", "Z2", "P1", "P2", "P4", "P4b", "P6", "F1", "F"]) };
     if on("2") {
         let jobs: Vec<ProofJob> = (0u32..1 << u.len()).map(|mask| ProofJob { mask, rewrites: mask & !sub_mask == 0, second_order: false }).collect();
         phase_proofs(rep, "U", &u, &items, &jobs);
